@@ -1,6 +1,7 @@
 import Hls.Proofs.MediaRT
 import Hls.Proofs.WrittenRT
 import Hls.Proofs.ParsedMedia
+import Hls.Proofs.ExamplesMedia
 /-!
 # C03 — a media playlist survives serialise → parse
 
@@ -95,6 +96,18 @@ theorem media_roundtrip_parsed (e : Option Nat) (s : Str) (p : MediaPlaylist)
     ∃ text, p.show = .ok text ∧ parseMediaWith (bE e) text = .ok p := by
   obtain ⟨rest, ls, _, h2, h3⟩ := parseMediaWith_ok (bE e) s p h
   exact media_roundtrip_wf e s p h hk2 (assembled_mediaWF e ls p h3 (text_lines_good rest ls h2) ho)
+
+/-- non-vacuity of `media_roundtrip_wf` / `media_roundtrip_parsed`: a concrete playlist with a key (explicit IV,
+KEYFORMAT, KEYFORMATVERSIONS), a map with byte range, chained byte ranges, a title with a comma, program date time,
+discontinuity, EXT-X-START and an unknown tag is in `MediaWF`, free of K2, and round-trips at string level -/
+theorem example_media : MediaWF exMedia ∧ NoK2 exMedia ∧
+    ∃ text, exMedia.show = .ok text ∧ parseMediaWith (bE none) text = .ok exMedia :=
+  ⟨exMedia_wf, (by
+    intro s hs m hm
+    simp [exMedia] at hs
+    rcases hs with rfl | rfl
+    · cases hm; rfl
+    · cases hm), exMedia_roundtrip⟩
 
 /-- the former finding K3 (`KEY a, KEY b(f), segment, KEY NONE, KEY a, segment`): since the `fix:`
 that makes the writer print the reset, it round-trips -/
